@@ -38,7 +38,11 @@ Print Assumptions C01_invariant_in_every_reachable_state.
     entry, derived signals expanded in place; it fails unless the body consumes exactly the
     log), and that log is Consistent: every TRACKED entry shows the source's current value,
     recursively so for tracked memos; untracked entries contribute the value seen at the last
-    run.  One replay over one log explains the value, hence no mixture of old and new inputs. *)
+    run.  One replay over one log explains the value, hence no mixture of old and new inputs.
+    ("Current value" of a source memo built with a comparator coarser than equality
+    (new_with_compare, [CPar]): a value that comparator does not tell from the memo's present
+    value — the memo itself always holds what its function gives, its subscribers are by
+    design not told about a change its comparator ignores; [eqv].) *)
 Theorem C01_read_consistent :
   forall p, wf_prog p -> no_self_feed p ->
   forall ops n cm e s' v,
@@ -50,14 +54,14 @@ Theorem C01_read_consistent :
 Proof. exact read_consistent. Qed.
 Print Assumptions C01_read_consistent.
 
-(** [read_eq_spec]: when no memo / derived body reads through untrack or get_untracked, the value
-    read is the denotational value of the node over the current signal values ([spec]: bodies
-    evaluated recursively from the signals alone, no caches, no states), and the read changed
-    no signal *)
+(** [read_eq_spec]: when no memo / derived body reads through untrack or get_untracked and every
+    memo compares with equality or always-changed ([exact_prog]), the value read is the
+    denotational value of the node over the current signal values ([spec]: bodies evaluated
+    recursively from the signals alone, no caches, no states), and the read changed no signal *)
 Theorem C01_read_eq_spec :
   forall p, wf_prog p -> no_self_feed p ->
   forall ops n s' v,
-  uf_prog p -> wf_ops p ops -> n < length p -> memob p n = true ->
+  uf_prog p -> exact_prog p -> wf_ops p ops -> n < length p -> memob p n = true ->
   read_top p n (run_fixed p ops) = (s', v) ->
   spec p s' n = Some v /\ (forall i, sval (getn s' i) = sval (getn (run_fixed p ops) i)).
 Proof. exact read_eq_spec. Qed.
@@ -79,7 +83,7 @@ Print Assumptions C01_read_leaves_cone_current.
 
 (** any Clean memo of any state satisfying the invariant holds its denotational value *)
 Theorem C01_clean_memo_eq_spec :
-  forall p s, Inv0 p s -> uf_prog p ->
+  forall p s, Inv0 p s -> uf_prog p -> exact_prog p ->
   forall j, memob p j = true -> st (getn s j) = Clean ->
   exists v, cache (getn s j) = Some v /\ spec p s j = Some v.
 Proof. exact clean_memo_eq_spec. Qed.
